@@ -61,6 +61,11 @@ NEEDS = {
  'C19c-request-close-not-reset-in-copy': 'one -cdf invocation in which a non-bzip2 operand follows a decompressed one',
  'C20c-sort-alphabet-skips-last': 'a multi-table block whose last group is EOB alone in its table with zero-frequency symbols before it',
  'C22c-bzcat-stdout-deferred': 'invoked as bzcat/lbzcat with a final -z/--compress and a FILE operand',
+ 'C05d-eof-missing-bits-vs-bytes': 'a stream cut just before its final zero byte(s), truncated length 1 or 2 mod 4',
+ 'C10d-size-test-against-parser-level': 'concatenated streams of different declared levels, >= 2 workers, a speculative retrieve finishing before the parser reaches the later stream header',
+ 'C11d-unord-endpos-not-refreshed': 'a compressed block longer than the input window, exactly 2 workers, the speculative job parked at the tail before the parser reaches its block',
+ 'C16d-cli-sti-around-work-only': 'SIGINT/SIGTERM landing between open(O_EXCL) of the output and work(), or at fchown/fchmod/futimens/close/unlink',
+ 'C21d-sigusr1-inherited-blocked': 'the parent execs lbzip2 with SIGUSR1 blocked, and a read/write failure occurs in a sub-thread',
  'C22-env-first-only': 'two of LBZIP2/BZIP2/BZIP set at once, the later one carrying a relevant option',
 }
 
